@@ -58,6 +58,9 @@ def block(c, cat):
         call = 'ctpg::ftors::val(42)(%s)' % args
         o.append('    auto r = %s;' % call)
         o.append('    ht::check(r == 42, cid, "val does not return its value");')
+        # val(v) returns v ITSELF also when v's type could be built from a braced list of its own kind
+        o.append('    { auto n = ctpg::ftors::val(ht::SelfList(7))(%s); ht::check(n.tag == 7 && n.items.empty(), cid, "val(node) does not return the node (a list holding the node instead)"); }' % args)
+        o.append('    { std::vector<std::any> va{1, 2, 3}; auto w = ctpg::ftors::val(std::move(va))(%s); ht::check(w.size() == 3, cid, "val(vector<any>) does not return the vector"); }' % args)
         o.append('    ht::check(ht::copies == 0 && ht::moves == 0, cid, "an argument was copied or moved");')
         o.append('    ht::check(%s, cid, "an argument was modified");' % intact)
     else:
